@@ -185,6 +185,7 @@ func read(in io.Reader, metadata *raft.SnapshotMeta, snap io.Writer) error {
 
 	// Look through the archive for the pieces we care about.
 	var shaBuffer bytes.Buffer
+	var sawMeta, sawState bool
 	for {
 		hdr, err := archive.Next()
 		if err == io.EOF {
@@ -196,6 +197,7 @@ func read(in io.Reader, metadata *raft.SnapshotMeta, snap io.Writer) error {
 
 		switch hdr.Name {
 		case "meta.json":
+			sawMeta = true
 			// Previously we used json.Decode to decode the archive stream. There are
 			// edgecases in which it doesn't read all the bytes from the stream, even
 			// though the json object is still being parsed properly. Since we
@@ -213,6 +215,7 @@ func read(in io.Reader, metadata *raft.SnapshotMeta, snap io.Writer) error {
 			}
 
 		case "state.bin":
+			sawState = true
 			if _, err := io.Copy(io.MultiWriter(snap, snapHash), archive); err != nil {
 				return fmt.Errorf("failed to read or write snapshot data: %v", err)
 			}
@@ -230,6 +233,15 @@ func read(in io.Reader, metadata *raft.SnapshotMeta, snap io.Writer) error {
 	// Verify all the hashes.
 	if err := hl.DecodeAndVerify(&shaBuffer); err != nil {
 		return fmt.Errorf("failed checking integrity of snapshot: %v", err)
+	}
+
+	// A member that is absent hashes like an empty one, so its absence has to
+	// be checked for explicitly.
+	if !sawMeta {
+		return fmt.Errorf("snapshot is missing the %q file", "meta.json")
+	}
+	if !sawState {
+		return fmt.Errorf("snapshot is missing the %q file", "state.bin")
 	}
 
 	return nil
